@@ -16,3 +16,63 @@ c = contract(PSL + "#per-character", props=["C15"], region_for_target="ch", regi
 @c.ensures(only_exit="end", note="one token per character, appended at the end (the interior of the literal is the in-order concatenation of per-character tokens)")
 def psl_one_token_per_character(parts, old):
     return len(parts) == len(old.parts) + 1 and parts[:len(old.parts)] == old.parts
+
+
+# ---- splice sites of meaning-carrying text: the emitted line varies with the text ONLY through the escaping primitive -------------------------
+# Statement contracts on one arbitrary iteration of each emitting loop.  Obligation per write_line call (non-interference modulo declassification):
+#   line == line[text := text']   where every application python_string_literal(.. text ..) is held fixed.
+# So whatever the text is, it reaches the generated source only as the output of python_string_literal (whose tokens are checked exhaustively).
+R = "pyopenapi_gen.core.writers.python_construct_renderer:PythonConstructRenderer"
+U = "pyopenapi_gen.visit.endpoint.generators.url_args_generator:EndpointUrlArgsGenerator"
+SPLICE = dict(region_body_only=True, abstract_unsupported=True, functional_opaque=["python_string_literal", "NameSanitizer.sanitize_method_name", "sanitize_method_name"],
+              nothrow_calls=["python_string_literal", "write_line"])
+
+
+def _site(qual, label, target, sources, types, occurrence=0, **extra):
+    cc = contract(f"{qual}#{label}", props=["C15"], region_for_target=target, region_occurrence=occurrence, types=types,
+                  independent_of={"sources": sources, "allowed": ["python_string_literal", "sanitize_method_name"], "declassify": ["python_string_literal"]},
+                  **dict(SPLICE, **extra))
+
+    @cc.ensures(only_exit="end", note="vacuity guard: the iteration has a normal exit")
+    def reaches_end():
+        return True
+    return cc
+
+
+_enum_site = _site(R + ".render_enum", "enum-member", "(member_name, value)", ["value"], {"member_name": "str", "value": "any", "base_type": "str"}, occurrence=1)
+
+
+@_enum_site.requires
+def string_enum_member(value, base_type):
+    """the text case: a string enum. (For an integer enum EnumGenerator hands over int values only — it coerces every declared value with int(),
+    falling back to 0 — and an int is rendered by str(int): digits and a sign, not text. That caller guarantee is not part of this contract.)"""
+    return base_type == "str" and isinstance(value, str)
+_site(R + ".render_dataclass", "meta-load-map", "(api_field, python_field)", ["api_field"], {"api_field": "str", "python_field": "str"}, occurrence=0)
+_site(R + ".render_dataclass", "meta-dump-map", "(api_field, python_field)", ["api_field"], {"api_field": "str", "python_field": "str"}, occurrence=1)
+_site(R + ".render_alias", "discriminator-tuple", "(disc_value, schema_ref)", ["disc_value"], {"disc_value": "str", "schema_ref": "str"}, occurrence=0)
+_site(R + ".render_alias", "discriminator-dict", "(disc_value, schema_ref)", ["disc_value"], {"disc_value": "str", "schema_ref": "str"}, occurrence=2)
+_site(U + "._write_query_params", "query-name", "(i, p)", ["p['original_name']"], {"i": "int", "p": "dict"})
+_site(U + "._write_header_params", "header-name", "p_info", ["p_info['original_name']"], {"p_info": "dict"})
+_site(U + ".generate_url_and_args", "cookie-name", "p_info", ["p_info['original_name']"], {"p_info": "dict"})
+
+
+# ---- docstrings: the rendered docstring varies with summary / description only through escape_docstring_text ------------------------------
+DW = "pyopenapi_gen.core.writers.documentation_writer:DocumentationWriter.render_docstring"
+c = contract(DW, props=["C15"], types={"indent": "int"}, shape={"doc.summary": "any", "doc.description": "any", "doc.args": "any", "doc.returns": "any", "doc.raises": "any"},
+             abstract_unsupported=True, functional_opaque=["escape_docstring_text", "self.formatter.wrap", "wrap"],
+             independent_of={"sources": ["doc.summary", "doc.description"], "allowed": ["wrap", "escape_docstring_text", "render_args", "render_returns", "render_raises", "extend", "append"],
+                             "declassify": ["escape_docstring_text"], "result": True})
+
+
+# ---- string defaults -------------------------------------------------------------------------------------------------------------------------
+DG = "pyopenapi_gen.visit.model.dataclass_generator:DataclassGenerator._get_field_default"
+c = contract(DG, props=["C15"], shape={"ps.default": "any", "ps.type": "any", "ps.name": "any", "ps.enum": "any"}, abstract_unsupported=True,
+             functional_opaque=["python_string_literal"],
+             independent_of={"sources": ["ps.default"], "allowed": ["python_string_literal", "get", "add_import", "upper", "replace"], "declassify": ["python_string_literal"], "result": True})
+
+
+@c.requires
+def gfd_string_default(self, ps, context):
+    """the text case: a string default of a non-enum property (an enum-typed default is turned into a member access by name, numbers and booleans
+    are rendered by str() of a number / bool: not text)"""
+    return isinstance(ps.default, str) and ps.name is None
